@@ -316,8 +316,14 @@ def symbolic_attractor_test(
     # completed and no unprocessed variables remaining.
     all_done = False
 
+    # If a whole pass of the main loop changes nothing (forward growth was declined by the
+    # size heuristic and no other step was possible), the next pass must ignore the heuristic,
+    # otherwise the loop would repeat forever.
+    force_growth = False
+
     while not all_done:
         all_done = True
+        state_before = (reach_set, avoid, len(saturated_vars))
 
         # Saturate reach_set with currently selected variables, but only if
         # it's symbolic size is smaller than that of the avoid set (reach set
@@ -342,7 +348,7 @@ def symbolic_attractor_test(
                     all_variables_done = (
                         len(conflict_vars) == 0 and len(other_vars) == 0
                     )
-                    if no_avoid or avoid_is_larger or all_variables_done:
+                    if no_avoid or avoid_is_larger or all_variables_done or force_growth:
                         reach_set = updated
                         saturation_done = False
                         if reach_set.symbolic_size() > 100_000 and sd.config["debug"]:
@@ -444,6 +450,12 @@ def symbolic_attractor_test(
                 )
 
             break
+
+        force_growth = (
+            state_before[0] == reach_set
+            and state_before[1] == avoid
+            and state_before[2] == len(saturated_vars)
+        )
 
     if sd.config["debug"]:
         print(f"[{node_id}] > Reachability completed with {reach_set}.")
